@@ -2080,7 +2080,12 @@ impl<'a, const C: usize, const R: usize, T: 'a + Copy + std::fmt::Debug> Layout<
     pub fn trans_resolution_layer_order(&self) -> LayerStack {
         let current_layer = self.current_layer();
         if self.trans_resolution_behavior_v2 {
-            let mut v = self.active_held_layers().collect::<LayerStack>();
+            // Leave room for the default layer and the first layer: they must not be the ones that
+            // are dropped when more layers are held than the stack can hold.
+            let mut v = self
+                .active_held_layers()
+                .take(MAX_ACTIVE_LAYERS - 2)
+                .collect::<LayerStack>();
             let _ = v.push(self.default_layer as u16);
             if self.delegate_to_first_layer && current_layer != 0 && self.default_layer != 0 {
                 let _ = v.push(0);
